@@ -302,8 +302,12 @@ class StdSec:
         return aes_cbc_decrypt(key, data[:16], data[16:])
 
     # --- document side
-    def encrypt_dict(self, p_unsigned=False, length_entry=True):
+    def encrypt_dict(self, p_unsigned=False, length_entry=True, variant="plain"):
+        """variant (V >= 4 only): how entries that do not matter for this V/R are spelled -
+        len40 / len64: a top-level /Length (which only V 2 and 3 give a meaning to) of 40 / 64; nolen: none;
+        alt: the crypt filter is not called StdCF, its /Length is given in bits, /EncryptMetadata is written out"""
         from .pdfwriter import Name
+        cfname = "VerifCF" if variant == "alt" else "StdCF"
         d = {"Filter": Name("Standard"), "V": self.V, "R": self.R, "O": self.O, "U": self.U,
              "P": (self.P & 0xFFFFFFFF) if p_unsigned else self.P}
         if self.V in (2, 3) or (self.V == 1 and self.R == 3 and self.keylen != 40):
@@ -316,13 +320,17 @@ class StdSec:
                 d["StmF"] = Name("Identity")
                 d["StrF"] = Name("Identity")
             else:
-                d["CF"] = {"StdCF": {"Type": Name("CryptFilter"), "CFM": Name(self.cfm), "AuthEvent": Name("DocOpen"),
-                                     "Length": 32 if self.V == 5 else 16}}
-                d["StmF"] = Name("StdCF")
-                d["StrF"] = Name("StdCF")
-            d["Length"] = self.keylen
-            if not self.encrypt_metadata:
-                d["EncryptMetadata"] = False
+                nbytes = 32 if self.V == 5 else 16
+                d["CF"] = {cfname: {"Type": Name("CryptFilter"), "CFM": Name(self.cfm), "AuthEvent": Name("DocOpen"),
+                                    "Length": nbytes * 8 if variant == "alt" else nbytes}}
+                d["StmF"] = Name(cfname)
+                d["StrF"] = Name(cfname)
+            if variant in ("len40", "len64"):
+                d["Length"] = 40 if variant == "len40" else 64
+            elif variant != "nolen":
+                d["Length"] = self.keylen
+            if not self.encrypt_metadata or variant == "alt":
+                d["EncryptMetadata"] = bool(self.encrypt_metadata)
         if self.V == 5:
             d["OE"], d["UE"], d["Perms"] = self.OE, self.UE, self.Perms
         return d
